@@ -354,7 +354,10 @@ FOR_LOOP:
 
 				if err := bcR.blockVerifier(types.BlockID{Hash: first.Hash(), PartsHeader: firstPartsHeader}, first.Height, second.LastCommit); err != nil {
 					log.Error("error in validation", zap.String("error", err.Error()))
-					bcR.pool.RedoRequest(first.Height)
+					// The commit that failed to verify came with the second block: either peer may
+					// be the one at fault. Dropping only the first block's peer left a bad second
+					// block in place, and every honest copy of the first one failed against it.
+					bcR.pool.RedoRequests(first.Height, second.Height)
 					break SYNC_LOOP
 				} else {
 					bcR.pool.PopRequest()
